@@ -99,6 +99,8 @@ def random_calls(r, n, with_eval=True):
     for _ in range(n):
         kind, src = r.choice(SOURCES)
         src = r.choice(NEAR)(src) if r.random() < 0.3 else src
+        if calls and r.random() < 0.25:
+            kind, src = calls[-1]['kind'], calls[-1]['src']       # the same source again, immediately
         op = r.choice(['parse', 'eval', 'eval', 'names', 'names_partial'] if with_eval else ['parse', 'names', 'names_partial'])
         c = {'op': op, 'src': src, 'kind': kind}
         if op == 'eval':
@@ -320,7 +322,7 @@ class _Shim:
     pass
 
 
-def record_session(seq_seed, length, cache_kind=None):
+def record_session(seq_seed, length, cache_kind=None, observe_keys=True):
     """Run a random sequence on one long-lived parser and record, per call, what TraceSession compares:
     outcome of the (implied) parse or of list_names, lexer residue, cache keys."""
     common.import_impl()
@@ -379,7 +381,7 @@ def record_session(seq_seed, length, cache_kind=None):
             if c['op'] == 'names_partial':
                 obs.pop('err', None)
         obs['residue'] = {'pos': P.lex.lexpos, 'lineno': P.lex.lineno, 'paren': getattr(P.lex, 'paren_count', 0)}
-        if cache_kind:
+        if cache_kind and observe_keys:
             obs['keys'] = [common.cps(k) for k in list(cache)]
         out.append({'text': text, 'op': c['op'], 'k': c.get('k', 0), 'obs': obs})
     return out
@@ -393,13 +395,13 @@ def _rec_worker(arg):
         return {'harness_error': ''.join(traceback.format_exception_only(type(e), e))}
 
 
-def validate_sessions(seed, n, length, cache_kind=None, procs=16, mutant_devs=()):
+def validate_sessions(seed, n, length, cache_kind=None, procs=16, mutant_devs=(), observe_keys=True):
     """Record n sessions and validate them with TLC against SQSession.  Returns (sessions, verdicts, tlc result)."""
     import multiprocessing as mp
     common.snapshot_repo()
     ctx = mp.get_context('fork')
     with ctx.Pool(procs) as pool:
-        sessions = pool.map(_rec_worker, [(seed * 104729 + i, length, cache_kind) for i in range(n)], chunksize=max(1, n // (procs * 4)))
+        sessions = pool.map(_rec_worker, [(seed * 104729 + i, length, cache_kind, observe_keys) for i in range(n)], chunksize=max(1, n // (procs * 4)))
     sessions = [s for s in sessions if not isinstance(s, dict)]
     texts = sorted({c['text'] for s in sessions for c in s})
     idx = {t: i + 1 for i, t in enumerate(texts)}
